@@ -153,6 +153,51 @@ func runC03(c *fw.Ctx) {
 			}
 		}
 	}
+	// sampled shapes with sizes up to 7: unary, same-shape and broadcasting operations
+	for i := 0; i < c.Pick(3000, 30000); i++ {
+		c.Case(func(k *fw.K) {
+			dst := BigShape(k.Rng, 1, 400)
+			switch k.Rng.Intn(3) {
+			case 0:
+				in := c03Unary[k.Rng.Intn(len(c03Unary))]
+				x, cname := valueClass(k.Rng, k.Rng.Intn(4), dst)
+				k.Case = fcase{In: in, Ops: []*ref.T{x}, Tag: cname}
+				k.Key("%s/%g/%s/%s", in.Op, in.F, shapeKey(dst), cname)
+				k.Count("big_shape_cases", 1)
+				if msg := forwardCase(in, []*ref.T{x}, false); msg != "" {
+					k.Failf("%s(%g) on shape %v [%s]: %s", in.Op, in.F, dst, cname, msg)
+				}
+			case 1:
+				op := c03Same[k.Rng.Intn(len(c03Same))]
+				a, cname := valueClass(k.Rng, 0, dst)
+				b, _ := valueClass(k.Rng, 0, dst)
+				for i := range a.Data {
+					if k.Rng.Intn(3) == 0 {
+						b.Data[i] = a.Data[i]
+					} else if math.Abs(a.Data[i]-b.Data[i]) < 1e-3 {
+						b.Data[i] = a.Data[i] + 1
+					}
+				}
+				in := ref.Instr{Op: op}
+				k.Case = fcase{In: in, Ops: []*ref.T{a, b}, Tag: cname}
+				k.Key("%s/%s/%s", op, shapeKey(dst), cname)
+				k.Count("big_shape_cases", 1)
+				if msg := forwardCase(in, []*ref.T{a, b}, true); msg != "" {
+					k.Failf("%s on shape %v: %s", op, dst, msg)
+				}
+			default:
+				srcs := BroadcastSources(dst)
+				for {
+					sa, sb := srcs[k.Rng.Intn(len(srcs))], srcs[k.Rng.Intn(len(srcs))]
+					if bs, err := ref.BroadcastShape(sa, sb); err == nil && ref.SameShape(bs, dst) {
+						k.Count("big_shape_cases", 1)
+						c03Arith1(k, c03Arith[k.Rng.Intn(4)], sa, sb, k.Rng.Intn(4))
+						return
+					}
+				}
+			}
+		})
+	}
 	// sampled high-rank pairs
 	for i := 0; i < c.Pick(4000, 40000); i++ {
 		c.Case(func(k *fw.K) {
